@@ -137,8 +137,13 @@ def run_front(spec, res):
 
 def check_front(res, case):
     o1, ch1 = front_call(case, ro=False)
+    res.evaluations += 1
+    followup = case["beta"]["form"].startswith("vector") or case["lam"]["form"].startswith("matrix")
+    f1 = None
+    if followup:
+        f1 = scalar_followup(res, case, "front end (scalar-parameter call after a call with array parameters)")
     o2, ch2 = front_call(case, ro=True)
-    res.evaluations += 2
+    res.evaluations += 1
     res.count("outcome:" + o1.split(":")[0] + (":" + o1.split(":")[1] if o1.startswith("EXC") else ""))
     res.count("fail_mode:%s" % case.get("fail"))
     if ch1:
@@ -147,6 +152,12 @@ def check_front(res, case):
         res.violation("front end modified read-only %s" % ch2, case)
     if o1 != o2:
         res.violation("the same call gives %s with writable arrays but %s with read-only arrays" % (o1[:40], o2[:40]), case)
+    if followup:
+        # the same scalar-parameter call again, now after the read-only variant: it must behave as it did before
+        f2 = scalar_followup(res, case, "front end (scalar-parameter call after a call with read-only array parameters)")
+        if f1 is not None and f2 is not None and f1 != f2:
+            res.violation("a scalar-parameter call gives %s after a call with writable array parameters but %s after the same call with "
+                          "read-only arrays (state kept from the earlier call)" % (f1[:40], f2[:40]), case)
     arrays = case["lam"]["form"].startswith("matrix") or case["beta"]["form"].startswith("vector")
     if arrays or o1.startswith("EXC"):
         res.nontriv(common.h(case))
@@ -155,16 +166,23 @@ def check_front(res, case):
     else:
         res.count("returning_calls")
     verify_held(res, case, "front end")
-    if case["beta"]["form"].startswith("vector") and not case.get("followup_done"):
-        # same data and shapes again, this time with a scalar switching cost: nothing handed over earlier may change
-        c2 = dict(case)
-        c2["beta"] = dict(form="float", value=3.0)
-        c2["followup_done"] = True
-        c2["task_plan"] = {}
-        front_call(c2, ro=False)
-        res.evaluations += 1
-        res.count("scalar_followup_calls")
-        verify_held(res, case, "front end (scalar call after a vector call)")
+
+
+def scalar_followup(res, case, label):
+    """Same data and shapes again with scalar beta and lambda; nothing handed over earlier may change."""
+    c2 = dict(case)
+    c2["beta"] = dict(form="float", value=3.0)
+    c2["lam"] = dict(form="float", value=0.2)
+    c2["task_plan"] = {}
+    c2.pop("bad_lambda_shape", None)
+    held = list(HELD)
+    out, _ = front_call(c2, ro=False)
+    del HELD[:]
+    HELD.extend(held)            # the follow-up's own (scalar) arguments need no watching
+    res.evaluations += 1
+    res.count("scalar_followup_calls")
+    verify_held(res, case, label)
+    return out
 
 
 def cb_halve(rho, rp, tp, rd, td):
